@@ -144,11 +144,12 @@ async def history(with_undeploy):
         local = LocalConnector("local", fs.dir)
         slurm = SlurmConnector("slurm", fs.dir, local, None, maxConcurrentJobs=10, pollingInterval=rng.choice([0.1, 0.2, 0.3]))
         loc = next(iter((await slurm.get_available_locations()).values())).location
-        njobs = rng.randint(1, 6)
+        # (with an undeploy: several jobs that are certainly still queued when it comes)
+        njobs = rng.randint(3, 6) if with_undeploy else rng.randint(1, 6)
         plans = {}
         for k in range(njobs):
             # several jobs share their end time now and then (completion detected within one polling interval)
-            total = rng.choice([0.2, 0.5, 0.5, 0.9, 1.3])
+            total = rng.choice([6.0, 8.0]) if with_undeploy and k < 3 else rng.choice([0.2, 0.5, 0.5, 0.9, 1.3])
             tc = rng.choice([0.0, 0.1, 0.3])
             tp = rng.uniform(0, max(0.0, total - tc) / 2)
             plans[f"job-{k}-marker"] = (tp, max(0.0, total - tc - tp), tc, f"output-of-job-{k}", (k * 7) % 5)
@@ -177,6 +178,10 @@ async def history(with_undeploy):
         tasks = [asyncio.create_task(submit(k)) for k in range(njobs)]
         if with_undeploy:
             await asyncio.sleep(rng.uniform(0.1, 0.8))
+            for _ in range(100):  # until at least two submissions are registered (at most 5 s)
+                if len(slurm._scheduled_jobs) >= 2:
+                    break
+                await asyncio.sleep(0.05)
             fs.frozen = True
             await asyncio.sleep(0.05)
             scheduled = sorted(slurm._scheduled_jobs)
